@@ -80,4 +80,28 @@ def handleHookCalls (c : J) : Res := Id.run do
   if (c.getD "schedule").strList.length > 2 then r := tag r "concurrent"
   return r
 
+/-- `webhookTimeout`: the configured timeout, 10 s when none is set -/
+def effectiveTimeoutMs (t : Nat) : Nat := if t == 0 then 10000 else t
+
+/-- kind "hookexec": executors built by the real `NewWebhookExecutor` (real HTTP client, metrics wrapper), one per
+    incarnation of a controller re-created under the same name with another timeout; the hook answers after `delayMs`.
+    "A timeout is an error": the call fails exactly when the answer comes later than the timeout of *that* incarnation. -/
+def handleHookExec (c : J) : Res := Id.run do
+  let steps := c.getArr "steps"
+  let mut r : Res := { sig := (J.obj [("ctl", c.getD "controller"), ("hook", c.getD "hook"),
+    ("steps", .arr (steps.map (fun s => J.obj (s.fields.filter (fun kv => ["timeoutMs", "delayMs", "etag"].contains kv.1)))))]).render }
+  r := tag (pass r "C19") "hookexec"
+  for (s, i) in steps.zipIdx do
+    let t := effectiveTimeoutMs (s.getInt "timeoutMs").toNat
+    let d := (s.getInt "delayMs").toNat
+    let late := d > t
+    if late then r := tag r "timed-out"
+    if late && !s.getBool "error" then
+      r := fail r "C19" s!"incarnation {i}: the hook answered after {d} ms, the configured timeout is {t} ms, and the late answer was accepted"
+    else if !late && s.getBool "error" then
+      r := fail r "C19" s!"incarnation {i}: the hook answered after {d} ms, within the timeout of {t} ms, and the call failed"
+    else if !late && s.getStr "id" != "late" then
+      r := fail r "C19" s!"incarnation {i}: the answer body was not the one the hook sent"
+  return r
+
 end Mc.Drv
